@@ -69,9 +69,7 @@ def pLayer (c : UCmp) (start limit : Option IKey) : P Node := do
   else if t = "l" then do
     let n ← pNat
     let ts ← pRep pEntries n
-    match levelIter c ts start limit with
-    | some x => pure (.idx x)
-    | .none => failure
+    pure (.idx (levelIter c ts start limit))
   else failure
 
 def done {α : Type} (a : α) : P α := fun s => if s.isEmpty then some (a, []) else .none
